@@ -800,6 +800,23 @@ struct ZoneEngine : Engine {
 				if (e.t < -11644000000LL || e.t > 60000000000LL)
 					return v;
 		}
+		/* the same values as arguments, as plain stdin lines, in sed mode or in empty mode: four reader paths */
+		if (mode != 3) {
+			unsigned delivery = (unsigned)((p.hash() >> 11) % 4);
+			size_t nfix = mode == 4 ? 7 : 5;
+			if (delivery && q.argv.size() > nfix) {
+				for (size_t i = nfix; i < q.argv.size(); i++)
+					q.input += q.argv[i] + "\n";
+				q.argv.resize(nfix);
+				q.has_input = true;
+				if (delivery == 2)
+					q.argv.insert(q.argv.begin() + 1, "-S");
+				else if (delivery == 3)
+					q.argv.insert(q.argv.begin() + 1, "-E");
+				if (collect)
+					st.named[delivery == 1 ? "tool_values_on_stdin" : delivery == 2 ? "tool_values_in_sed_mode" : "tool_values_in_empty_mode"]++;
+			}
+		}
 		if (zpath != "/sim/zi/Z") {
 			for (auto &a : q.argv)
 				if (a == "/sim/zi/Z")
